@@ -1995,6 +1995,28 @@ func (e *CoreExtension) filterStripTags(value interface{}, args ...interface{}) 
 	return re.ReplaceAllString(s, ""), nil
 }
 
+// numberLess orders two numbers by value: integers by all their digits (a
+// float64 cannot tell 2^53 from 2^53+1), a NaN after everything else
+func numberLess(a, b interface{}) bool {
+	na, ma, ia := integerValue(a)
+	nb, mb, ib := integerValue(b)
+	if ia && ib {
+		switch {
+		case na != nb:
+			return na
+		case na:
+			return ma > mb
+		}
+		return ma < mb
+	}
+	fa, _ := toFloat64(a)
+	fb, _ := toFloat64(b)
+	if fa != fa || fb != fb {
+		return fb != fb && fa == fa
+	}
+	return fa < fb
+}
+
 func (e *CoreExtension) filterSort(value interface{}, args ...interface{}) (interface{}, error) {
 	if value == nil {
 		return nil, nil
@@ -2061,9 +2083,7 @@ func (e *CoreExtension) filterSort(value interface{}, args ...interface{}) (inte
 		}
 		if allNumbers {
 			sort.SliceStable(result, func(i, j int) bool {
-				a, _ := toFloat64(result[i])
-				b, _ := toFloat64(result[j])
-				return a < b
+				return numberLess(result[i], result[j])
 			})
 			return result, nil
 		}
@@ -2077,6 +2097,16 @@ func (e *CoreExtension) filterSort(value interface{}, args ...interface{}) (inte
 	// Try reflection for other types
 	rv := reflect.ValueOf(value)
 	if rv.Kind() == reflect.Slice || rv.Kind() == reflect.Array {
+		// A list of a defined type over interface values (type Rows []interface{})
+		// is sorted like the plain list
+		if rv.Type().Elem().Kind() == reflect.Interface {
+			plain := make([]interface{}, rv.Len())
+			for i := range plain {
+				plain[i] = rv.Index(i).Interface()
+			}
+			return e.filterSort(plain, args...)
+		}
+
 		result := reflect.MakeSlice(sliceTypeOf(rv), rv.Len(), rv.Len())
 		for i := 0; i < rv.Len(); i++ {
 			result.Index(i).Set(rv.Index(i))
@@ -2095,9 +2125,7 @@ func (e *CoreExtension) filterSort(value interface{}, args ...interface{}) (inte
 			a := result.Index(i).Interface()
 			b := result.Index(j).Interface()
 			if numeric {
-				fa, _ := toFloat64(a)
-				fb, _ := toFloat64(b)
-				return fa < fb
+				return numberLess(a, b)
 			}
 			return toString(a) < toString(b)
 		})
